@@ -65,6 +65,7 @@ class Explorer:
         self.branch_memo = {}
         self.char_sets = {}
         self._capture = None
+        self.stop_requested = False
 
     # -- solver access
     def check(self, *extra):
@@ -291,6 +292,8 @@ class Explorer:
         out = []
         try:
             while self.pending:
+                if self.stop_requested:
+                    break      # the harness has what it needs (a violation): remaining paths are not explored
                 if self.npaths >= self.max_paths:
                     raise Inconclusive("path budget exhausted (%d)" % self.max_paths)
                 if self.deadline is not None and time.time() > self.deadline:
@@ -1135,6 +1138,15 @@ class SInt:
             return NotImplemented
         if o <= 0:
             raise EngineError("division by a non-positive constant")
+        if want == "mod" and z3.is_const(self.e) and self.e.decl().kind() == z3.Z3_OP_UNINTERPRETED and str(self.e).startswith("env_") \
+                and self.hi - self.lo >= (1 << 32):
+            # residue of an unconstrained environment integer (e.g. a string hash): itself an arbitrary value of 0..o-1.
+            # (over-approximation: its relation to other uses of the same integer is dropped)
+            wr = _fit(0, o - 1)
+            r = z3.BitVec("env_mod[%s,%d]" % (self.e, o), wr)
+            if EX is not None and EX.running:
+                EX.assume(z3.And(r >= 0, r <= o - 1))
+            return SInt(r, 0, o - 1, wr)
         w = max(self.w, _fit(o, o)) + 1
         x = self.ext(w)
         c = z3.BitVecVal(o, w)
